@@ -19,10 +19,10 @@ Theorem c01_queue_bounded : forall q b s, reachable q b s -> length (queue s) <=
 Proof. exact batch_queue_bounded. Qed.
 Print Assumptions c01_queue_bounded.
 
-Theorem c01_drop_only_when_full : forall q b s t id s', reachable q b s ->
+Theorem c01_drop_only_when_queue_full : forall q b s t id s', reachable q b s ->
   accept s (t, EBufAdd id false) = Some s' -> length (queue s) = Qsz s.
 Proof. exact batch_drop_only_when_full. Qed.
-Print Assumptions c01_drop_only_when_full.
+Print Assumptions c01_drop_only_when_queue_full.
 
 Theorem c01_no_drop_after_completed_flush : forall q b s t id s', reachable q b s ->
   accept s (t, EBufAdd id false) = Some s' ->
@@ -43,7 +43,7 @@ Print Assumptions c01_producer_never_blocks.
 
 (* every trace the acceptor accepts passes the drop-legitimacy checker that ./check runs on the implementation's traces *)
 Theorem c01_accepted_trace_meets_drop_spec : forall q b tr s,
-  run (init q b) tr = Some s -> c01_drop_only_when_full q (pevs tr) = [].
+  run (init q b) tr = Some s -> Batch.Spec.c01_drop_only_when_full q (pevs tr) = [].
 Proof. exact accepted_trace_meets_spec_c01_drop. Qed.
 Print Assumptions c01_accepted_trace_meets_drop_spec.
 
